@@ -324,6 +324,10 @@ impl<const H: usize> Writer<H> {
         self.writer.get_ref().write_all_at(&zero_header, offset)?;
         self.writer.get_ref().sync_data()?;
 
+        // Move the buffered writer's file cursor back too, or the next append lands at the
+        // old position instead of `write_offset`.
+        self.writer.seek(SeekFrom::Start(offset))?;
+
         Ok(())
     }
 
